@@ -17,6 +17,7 @@ func init() {
 			"FE-BOOL IsInstant (a range query whose ends coincide gets no look-back)",
 			"PV-ROLE APIFlag.Set stores its argument verbatim; PV-GUARD each of since/start/end is parsed under conditions on that flag only",
 			"PV-GUARD --since: the parsed duration is not compared with a constant to choose a default",
+			"PV-API integer spellings via strconv.ParseInt only; --since only from model.ParseDuration",
 		},
 		NotDecided: []string{"float rounding of fractional seconds beyond 'rounded, not truncated'", "model.ParseDuration semantics"},
 		Rules: func(r *Run) {
@@ -27,6 +28,8 @@ func init() {
 			ruleAPIFlagVerbatim(r)
 			ruleTimeRangeIndependentFlags(r)
 			ruleSinceZeroIsAValue(r)
+			ruleTimestampIntegerSpellings(r)
+			ruleSinceOnlyPromDuration(r)
 		},
 	})
 }
